@@ -417,3 +417,30 @@ def sym_operator_reduce(xs, ys):
     u = functools.reduce(operator.or_, sets, set())
     i = functools.reduce(operator.and_, sets)
     return (u, i, functools.reduce(lambda a, b: a + b, [len(xs), len(ys), 1]), operator.not_(xs))
+
+
+def sym_reduce_guarded(xs, ys):
+    import functools, operator
+    table = {0: {10}, 1: {11}, 2: {12}}
+    try:
+        u = functools.reduce(operator.or_, (table[x] for x in sorted(xs)), set())
+    except KeyError:
+        u = {-1}
+    s = functools.reduce(lambda a, b: a + b, (y for y in ys), 0)
+    return (u, s)
+
+
+def sym_genexp_raise(xs, ys):
+    table = {0: {10}, 1: {11}, 2: {12}}
+    try:
+        u = set()
+        for t in (table[x] for x in sorted(xs)):
+            u |= t
+    except KeyError:
+        u = {-1}
+    try:
+        w = [table[x] for x in sorted(ys)]
+        k = len(w)
+    except KeyError:
+        k = -1
+    return (u, k)
